@@ -137,6 +137,24 @@ class _NotOwn:
 NOTOWN = _NotOwn()
 
 
+def _variant_builder_problems(c, d):
+    """keyword arguments of the run-time build of a variant's unit.  The format's default dialect is forwarded.  The unit is then
+    reached as `<variant>.<method>(value, flags)` (mixin / nailed path) - so it has to be the variant's DEFAULT unit (dialect=None; a
+    call dialect is an argument of that unit) - or through the holder registry (codec path, attrs=...), where the builder's own
+    dialect (always None for codecs) may be forwarded."""
+    name = getattr(c, "__name__", c)
+    out = []
+    if not isinstance(d.get("default_dialect"), Tm):
+        out.append(f"variant builder for {name} does not forward _default_dialect")
+    dv = d.get("dialect")
+    if "attrs" in d:
+        if not (isinstance(dv, Tm) or (isinstance(dv, Ob) and dv.o is None)):
+            out.append(f"variant builder for {name} (registry path) gets dialect {dv!r}")
+    elif not (isinstance(dv, Ob) and dv.o is None):
+        out.append(f"variant builder for {name} builds a unit for an arbitrary call dialect ({dv!r}) that is then reached as the attribute of the class: only the dialect cache is filled")
+    return out
+
+
 def verify_discriminator(fn, ns, mod, p: DPoint, method_name="__mashumaro_from_dict__", timeout_ms=10000):
     eng = pysym.Engine()
     root = mod.Base
@@ -186,9 +204,7 @@ def verify_discriminator(fn, ns, mod, p: DPoint, method_name="__mashumaro_from_d
             built = st.env.get("__built__", LL("set", []))
             st.env["__built__"] = LL("set", built.items + [Ob(c)])
             d = dict(o[2])
-            for kname in ("dialect", "default_dialect"):
-                if not isinstance(d.get(kname), Tm):
-                    problems.append(f"variant builder for {getattr(c, '__name__', c)} does not forward _{kname}")
+            problems.extend(_variant_builder_problems(c, d))
             return Ob(None)
         if o in (getattr(mod, "_tagger", None), getattr(mod, "_tagger_list", None)) and len(args) == 1 and isinstance(args[0], Ob):
             return Ob(o(args[0].o))  # the schema's own pure tagger function, run on the concrete class
@@ -202,10 +218,7 @@ def verify_discriminator(fn, ns, mod, p: DPoint, method_name="__mashumaro_from_d
             built = st.env.get("__built__", LL("set", []))
             st.env["__built__"] = LL("set", built.items + [Ob(c)])
             d = dict(bkw)
-            for k, want in (("dialect", "_dialect"), ("default_dialect", "_default_dialect")):
-                v = d.get(k)
-                if not (isinstance(v, Tm) and str(v.t).startswith(want[1:] if False else want.lstrip("_"))) and not (isinstance(v, Tm)):
-                    problems.append(f"variant builder for {getattr(c, '__name__', c)} does not receive {want}")
+            problems.extend(_variant_builder_problems(c, d))
             return Ob(None)
         if isinstance(recv, Tm) and name.startswith("__mashumaro_from_"):
             # a class taken from the registry: by INV one of the eligible classes
@@ -799,6 +812,82 @@ def a2_task(payload):
     return {"obligations": obs}
 
 
+# ---------------------------------------------------------------------------------------------
+# one registry per variant method: INV says "M[t] = c  =>  c owns the unit this function calls on it".  Two
+# discriminator functions that call DIFFERENT units (other format) on the registered classes must not share M,
+# otherwise a class registered by the one is taken from M by the other without ever owning that unit.
+# ---------------------------------------------------------------------------------------------
+FMT_SRC = '''
+from mashumaro.types import Discriminator
+from {mod} import {mix} as MIXF
+@dataclass
+class Base(MIXF):
+    class Config(BaseConfig):
+        discriminator = Discriminator(field="kind", include_subtypes=True)
+@dataclass
+class S1(Base):
+    kind: str = "s1"
+    a: bytes = b""
+'''
+FMT_LATE = '''
+@dataclass
+class S2(S1):
+    kind: str = "s2"
+    b: bytes = b""
+'''
+FMT_MIXINS = {"orjson": ("mashumaro.mixins.orjson", "DataClassORJSONMixin", "from_json", "to_jsonb"),
+              "msgpack": ("mashumaro.mixins.msgpack", "DataClassMessagePackMixin", "from_msgpack", "to_msgpack"),
+              "toml": ("mashumaro.mixins.toml", "DataClassTOMLMixin", "from_toml", "to_toml")}
+
+
+def format_registry_task(payload):
+    pid, fmt = payload
+    import re as _re
+
+    modname, mix, from_m, to_m = FMT_MIXINS[fmt]
+    src = g4.PRELUDE + FMT_SRC.format(mod=modname, mix=mix)
+    mod, recs0 = build.build_module(src)
+    try:
+        s1 = mod.S1("s1", b"x")
+        mod.Base.from_dict(s1.to_dict())
+        getattr(mod.Base, from_m)(getattr(s1, to_m)())
+        recs = [r for r in harvest.RECORDER.records if recs0 and r.seq >= recs0[0].seq]
+        uses = {}
+        nfn = 0
+        for r in recs:
+            if r.builder is None or r.builder.cls is not mod.Base:
+                continue
+            for fn in [n for n in ast.parse(r.text).body if isinstance(n, ast.FunctionDef) and n.name.startswith("__unpack_")]:
+                maps = {n.attr for n in ast.walk(fn) if isinstance(n, ast.Attribute) and _re.fullmatch(r"__mashumaro_\w*variants\w*__", n.attr)}
+                meths = {c.func.attr for c in ast.walk(fn) if isinstance(c, ast.Call) and isinstance(c.func, ast.Attribute) and c.func.attr.startswith("__mashumaro_from_")}
+                if maps and meths:
+                    nfn += 1
+                    for m in maps:
+                        uses.setdefault(m, set()).update(meths)
+        probs = [f"registry Base.{m} is shared by discriminator functions that call {sorted(ms)} on the registered classes" for m, ms in uses.items() if len(ms) > 1]
+        # native history (bounded): a class defined later and first seen through the dict entry point, then decoded through the format
+        hist = []
+        try:
+            exec(compile(FMT_LATE, "<late>", "exec"), vars(mod))
+            s2 = mod.S2("s2", b"x", b"y")
+            back = mod.Base.from_dict(s2.to_dict())
+            if back != s2:
+                hist.append(f"Base.from_dict -> {back!r}")
+            back = getattr(mod.Base, from_m)(getattr(s2, to_m)())
+            if back != s2 or type(back) is not mod.S2:
+                hist.append(f"after Base.from_dict registered the later class S2, Base.{from_m}(S2 document) -> {back!r}, expected {s2!r}")
+        except Exception as e:  # noqa
+            hist.append(f"history raised {type(e).__name__}: {str(e)[:200]}")
+        w = {"confirmed": True, "source": src + FMT_LATE, "input": f"Base.from_dict(S1 doc); Base.{from_m}(S1 doc); define S2(S1); Base.from_dict(S2 doc); Base.{from_m}(S2 doc)", "why": hist[0]} if hist else None
+        obs = [dict(id=f"{pid}.Rfmt[{fmt}]/registry_per_unit", status=("proved" if not probs else "refuted") if nfn else "error", unit=f"{nfn} discriminator functions of Base ({', '.join(sorted(uses))})",
+                    detail="; ".join(probs)[:600] if nfn else "no discriminator function harvested", witness=w if probs else None),
+               dict(id=f"{pid}.Hfmt[{fmt}]/cross_format_history", status="proved" if not hist else "refuted", unit="define-later / dict-first / format-second history (bounded)", bounded=True,
+                    detail="; ".join(hist)[:500], witness=w)]
+        return {"obligations": obs}
+    finally:
+        build.drop_module(mod)
+
+
 def history_task(payload):
     pid, p = payload
     w = history_battery(p)
@@ -816,7 +905,7 @@ def check(pid, tier):
             crashes.append(r["crash"] + " @ " + r["payload"] + "\n" + r["trace"][-700:])
         else:
             obs.extend(r["obligations"])
-    for r in runner.run_pool(pair_task, [(pid,)], chunks=1) + runner.run_pool(a2_task, [(pid,)], chunks=1):
+    for r in runner.run_pool(pair_task, [(pid,)], chunks=1) + runner.run_pool(a2_task, [(pid,)], chunks=1) + runner.run_pool(format_registry_task, [(pid, f) for f in FMT_MIXINS], chunks=1):
         if "crash" in r:
             crashes.append(r["crash"] + " @ " + r["payload"] + "\n" + r["trace"][-700:])
         else:
